@@ -229,6 +229,8 @@ fn programs() -> Vec<Program> {
     v.push(mk("burst: put a;put b;delete a;put a /queue1", 1, vec![], vec![vec![put(1, 2), put(2, 2), del(1), put(1, 3)]]));
     v.push(mk("burst: put a;delete a;put a;delete a /queue1", 1, vec![], vec![vec![put(1, 2), del(1), put(1, 3), del(1)]]));
     v.push(mk("burst: put a;put a;delete a;put b /queue2", 2, vec![], vec![vec![put(1, 2), put(1, 3), del(1), put(2, 2)]]));
+    v.push(mk("burst: put_ttl a;put_ttl a;delete a;put b /queue2", 2, vec![], vec![vec![put_ttl(1, 2, 5000), put_ttl(1, 3, 5000), del(1), put(2, 2)]]));
+    v.push(mk("burst: put a;put_ttl a;put a /queue2", 2, vec![], vec![vec![put(1, 2), put_ttl(1, 3, 5000), put(1, 4)]]));
     v.push(mk("bursts: put a;put b || put b;delete a /queue1", 1, vec![], vec![vec![put(1, 2), put(2, 2)], vec![put(2, 3), del(1)]]));
     v.push(mk("bursts: put a;delete a || put a;delete a /queue2", 2, vec![], vec![vec![put(1, 2), del(1)], vec![put(1, 3), del(1)]]));
     v.push(mk("real-time: put a;raise || wait;delete a /queue1", 1, vec![], vec![vec![put(1, 2), Op::RaiseFlag { flag: 0 }], vec![Op::WaitFlag { flag: 0 }, del(1)]]));
